@@ -287,6 +287,15 @@ def _entries(x):
     return [((), x)]
 
 
+def _decide(log, v, key, rp, **kw):
+    """log.decide, but once a violation with this key has been replayed in this case further failing obligations of the
+    same key are only recorded (status as answered by the solver), not replayed again."""
+    if not v.holds and any(x["key"] == key for x in log.violations):
+        log.obligations.append({"case": log.case, "what": v.what, "status": v.status, "time_s": round(v.time, 4), "residual_terms": v.nterms})
+        return False
+    return log.decide(v, key=key, replay=rp, **kw)
+
+
 def _eq(log, got, want, what, key, rp):
     """got == want (both scalars or arrays of the same shape).  One solver query per call: "some entry's residual
     numerator is non-zero" must be unsat; if it is not, the entries are decided one by one to obtain the failing entry and
@@ -304,10 +313,10 @@ def _eq(log, got, want, what, key, rp):
             if not nz:
                 S.STATS["trivial"] += 1
             v.nterms = sum(len(n.t) for n in nz)
-            return log.decide(v, key=key, replay=rp, sampler=_sampler)
+            return _decide(log, v, key, rp, sampler=_sampler)
     for (idx, g), (_i, w) in pairs:
         v = prove_zero(Cx.lift(g) - Cx.lift(w), "%s%s" % (what, list(idx) if idx else ""))
-        if not log.decide(v, key=key, replay=rp, sampler=_sampler):
+        if not _decide(log, v, key, rp, sampler=_sampler):
             return False
     return True
 
@@ -672,14 +681,24 @@ def _lit_betas(nf, nl=3):
 
 
 def _a_back(bet, ap, L):
-    """a(T-L) for a(T) = ap: integrates da/dL = sum beta_k a^(k+2) numerically (scipy DOP853)."""
-    from scipy.integrate import solve_ivp
+    """a(T-L) for a(T) = ap: integrates da/dL = sum beta_k a^(k+2) numerically (mpmath Taylor-series ODE solver, 25
+    digits, so that the oracle carries no noise at the 1e-16 level of the doubles it is compared with)."""
+    import mpmath as mp
 
     if L == 0:
         return ap
-    sgn = 1.0 if L > 0 else -1.0
-    sol = solve_ivp(lambda l, y: [sgn * sum(b * y[0] ** (k + 2) for k, b in enumerate(bet))], (0.0, abs(L)), [ap], rtol=1e-13, atol=1e-18, method="DOP853")
-    return float(sol.y[0, -1])
+    mp.mp.dps = 25
+    sgn = 1 if L > 0 else -1
+    f = mp.odefun(lambda x, y: [sgn * sum(mp.mpf(b) * y[0] ** (k + 2) for k, b in enumerate(bet))], 0, [mp.mpf(ap)], tol=mp.mpf(10) ** -22)
+    return float(f(abs(mp.mpf(L)))[0])
+
+
+def _clipL(point):
+    """L of the candidate point mapped into 0.3 <= |L| <= 1.2 (asymptotic regime of the scaling tests below)"""
+    L = _fval(point, "L", 0.7)
+    if L == 0 or L != L:
+        return 0.7
+    return max(0.3, min(1.2, abs(L))) * (1 if L > 0 else -1)
 
 
 def _exponent(errs, lams, floor=1e-25):
@@ -705,16 +724,16 @@ def _exp_scaling(call, gam0, bet, n, L, what):
     out = np.array(out, dtype=complex)
     errs = []
     for lam in LAMS:
-        ap = 0.04 * lam
+        ap = 0.02 * lam
         a = _a_back(bet[: max(n - 1, 1)], ap, L)
         exact = sum(gam0[k] * a ** (k + 1) for k in range(n))
         approx = sum(out[j] * ap ** (j + 1) for j in range(n))
         errs.append(float(np.abs(exact - approx).max()))
-    if max(errs) < 1e-12:
+    if max(errs) < 1e-15:
         return None
-    ex = _exponent(errs, LAMS, floor=1e-13)
+    ex = _exponent(errs, LAMS, floor=1e-17)
     if ex < n + 0.5:
-        return {"detail": "%s: |gamma(a(mu^2)) - sum_j gamma'_j a(xi^2 mu^2)^(j+1)| at a' = 0.04*(1,1/2,1/4,1/8) = %r scales like a'^%.2f, "
+        return {"detail": "%s: |gamma(a(mu^2)) - sum_j gamma'_j a(xi^2 mu^2)^(j+1)| at a' = 0.02*(1,1/2,1/4,1/8) = %r scales like a'^%.2f, "
                           "expected a'^%d (L=%r)" % (what, errs, ex, n + 1, L)}
     return None
 
@@ -722,9 +741,7 @@ def _exp_scaling(call, gam0, bet, n, L, what):
 def replay_exponentiated(point, kind, order, nf):
     import eko.scale_variations.exponentiated as real
 
-    L = _fval(point, "L", 0.7)
-    if not 0.05 < abs(L) < 3:
-        L = 0.7
+    L = _clipL(point)
     dim = DIMS[kind]
     for nfx in ([nf] if nf is not None else [3, 4, 5, 6]):
         bet, _bq = _lit_betas(nfx)
@@ -759,9 +776,7 @@ def replay_exponentiated_qed(point, kind, order, nf, nl, running):
     import eko.scale_variations.exponentiated as real
 
     order = tuple(order)
-    L = _fval(point, "L", 0.7)
-    if not 0.05 < abs(L) < 3:
-        L = 0.7
+    L = _clipL(point)
     dim = DIMS[kind]
     for nfx in ([nf] if nf is not None else [3, 4, 5, 6]):
         bet, bq = _lit_betas(nfx, nl)
@@ -823,7 +838,7 @@ def _expanded_scaling(call, gam, bet, n, L, dim, what):
 
     errs = []
     for lam in LAMS:
-        ap = 0.04 * lam
+        ap = 0.02 * lam
         K = call(ap)
         if K is None:
             return {"detail": "%s returned None" % what}
@@ -834,16 +849,14 @@ def _expanded_scaling(call, gam, bet, n, L, dim, what):
         return None
     ex = _exponent(errs, LAMS, floor=1e-14)
     if ex < n - 0.5:
-        return {"detail": "%s: |K - Pexp(int gamma)| at a' = 0.04*(1,1/2,1/4,1/8) = %r scales like a'^%.2f, expected a'^%d (L=%r)" % (what, errs, ex, n, L)}
+        return {"detail": "%s: |K - Pexp(int gamma)| at a' = 0.02*(1,1/2,1/4,1/8) = %r scales like a'^%.2f, expected a'^%d (L=%r)" % (what, errs, ex, n, L)}
     return None
 
 
 def replay_expanded(point, kind, order, nf):
     import eko.scale_variations.expanded as real
 
-    L = _fval(point, "L", 0.7)
-    if not 0.05 < abs(L) < 3:
-        L = 0.7
+    L = _clipL(point)
     dim = DIMS[kind]
     for nfx in ([nf] if nf is not None else [3, 4, 5, 6]):
         bet, _bq = _lit_betas(nfx)
@@ -863,9 +876,7 @@ def replay_expanded_qed(point, kind, order, nf, nl, running):
     import eko.scale_variations.expanded as real
 
     order = tuple(order)
-    L = _fval(point, "L", 0.7)
-    if not 0.05 < abs(L) < 3:
-        L = 0.7
+    L = _clipL(point)
     dim = DIMS[kind]
     fn = {"ns": real.non_singlet_variation_qed, "singlet4": real.singlet_variation_qed, "valence": real.valence_variation_qed}[kind]
     for nfx in ([nf] if nf is not None else [3, 4, 5, 6]):
